@@ -665,6 +665,10 @@ def oracle_db(res):
 
 
 # =============================================================================== (c) schedules
+class Stuck(Exception):
+    """the real code deadlocked under the deterministic scheduler (a verdict, not an infra error)"""
+
+
 def gen_sched_case(rng, kind, seed):
     nobj = rng.choice([1, 2, 2])
     objs = ['o%d' % i for i in range(nobj)]
@@ -711,7 +715,8 @@ def run_sched_real(case, tmp, tag='t'):
                 s.spawn('c%d' % i, body, i, prog)
             r = s.run(timeout=60)
             if r['deadlock']:
-                raise InfraError('scheduler reported a deadlock/timeout: %r' % (r['errors'],))
+                raise Stuck('committer threads deadlocked under schedule %r (errors %r)' % (
+                    r['decisions'][:60], {k: repr(v)[:80] for k, v in r['errors'].items()}))
             for name, e in r['errors'].items():
                 log.append(('commit', name, 'Other(%s)' % type(e).__name__, None, {}, {}, {}))
             res = finish_db(w, log)
@@ -793,7 +798,21 @@ def run_real(case, tmp, tag):
     return run_sched_real(case, tmp, tag)
 
 
+def run_real_safe(case, tmp, tag):
+    """an exception escaping the real code where the unchanged code raises none is a verdict
+    (signature C03:unexpected-exception:<type>), not an infrastructure error"""
+    try:
+        return run_real(case, tmp, tag)
+    except (InfraError, KeyboardInterrupt):
+        raise
+    except BaseException as e:  # noqa: B902
+        import traceback
+        return dict(ops=[], obs=[], crash=(type(e).__name__, traceback.format_exc()[-1200:]))
+
+
 def judge(case, res):
+    if res.get('crash'):
+        return [('C03:unexpected-exception:' + res['crash'][0], res['crash'][1])], False, {}
     P, nontriv, hc = oracle_trace(res['ops'], res['obs'])
     if case['section'] != 'storage':
         P += oracle_db(res)
@@ -807,7 +826,7 @@ def shrink(case, sig, tmp):
     def fails_with(c):
         n[0] += 1
         try:
-            r = run_real(c, tmp, 'k%d' % n[0])
+            r = run_real_safe(c, tmp, 'k%d' % n[0])
             P, _, _ = judge(c, r)
         except InfraError:
             return False
@@ -884,7 +903,7 @@ def main(argv=None):
             # shrink only the first failure of each kind (shrinking re-runs the real code many times)
             small = shrink(case, sig, ck.tmp) if sig not in shrunk and len(shrunk) < 3 else case
             shrunk.add(sig)
-            r2 = run_real(small, ck.tmp, 'v%d' % idx)
+            r2 = run_real_safe(small, ck.tmp, 'v%d' % idx)
             P2, _, _ = judge(small, r2)
             what2 = [w for s, w in P2 if s == sig]
             ck.violation(sig, (what2 or [what])[0],
@@ -900,7 +919,11 @@ def main(argv=None):
     # ---- plain OS threads smoke (no scheduler): real preemption, a few hundred commits
     if not ck.replay_path:
         for kind in KINDS:
-            for sig, what in run_threads_smoke(kind, ck.tmp, 40 if not ck.thorough else 400):
+            try:
+                probs = run_threads_smoke(kind, ck.tmp, 40 if not ck.thorough else 400)
+            except BaseException as e:  # noqa: B902
+                probs = [('C03:unexpected-exception:' + type(e).__name__, 'plain-threads run on %s raised %r' % (kind, e))]
+            for sig, what in probs:
                 ck.violation(sig, what, dict(case=dict(section='threads', kind=kind)))
             ck.count('threads-smoke:' + kind)
     ck.finish(
@@ -922,12 +945,9 @@ def _work(args):
     import logging
     logging.disable(logging.CRITICAL)
     try:
-        return idx, run_real(case, tmp, 'w%d' % idx), None
+        return idx, run_real_safe(case, tmp, 'w%d' % idx), None
     except InfraError as e:
         return idx, None, 'infra: %s' % e
-    except BaseException as e:  # noqa: B902
-        import traceback
-        return idx, None, traceback.format_exc()[-1500:] + repr(e)
 
 
 def run_all(ck, cases):
